@@ -1,0 +1,277 @@
+package object
+
+import (
+	"bytes"
+	"encoding/json"
+	"sort"
+
+	"github.com/risor-io/risor/errz"
+)
+
+// Lists and maps can contain themselves. Their recursive operations (Equals,
+// Compare, Interface, MarshalJSON) go through the helpers in this file, which
+// notice when they come back to a container that they are already working on.
+// A cyclic value then ends the operation instead of exhausting the native
+// stack, which would terminate the process.
+
+// The containers on the way down are only remembered below this depth. Values
+// that are not cyclic are rarely nested this deeply, so that the common case
+// costs a counter.
+const cycleCheckDepth = 64
+
+type visitPair struct{ a, b Object }
+
+type visit struct {
+	depth int
+	pairs map[visitPair]struct{}
+	ones  map[Object]struct{}
+}
+
+// enterPair reports whether the pair (a, b) is being worked on already. When it
+// returns false, the caller must call leavePair when it is done with the pair.
+func (v *visit) enterPair(a, b Object) bool {
+	if v.depth+1 >= cycleCheckDepth {
+		key := visitPair{a, b}
+		if _, active := v.pairs[key]; active {
+			return true
+		}
+		if v.pairs == nil {
+			v.pairs = map[visitPair]struct{}{}
+		}
+		v.pairs[key] = struct{}{}
+	}
+	v.depth++
+	return false
+}
+
+func (v *visit) leavePair(a, b Object) {
+	v.depth--
+	if v.pairs != nil {
+		delete(v.pairs, visitPair{a, b})
+	}
+}
+
+// enter is enterPair for the operations on a single value.
+func (v *visit) enter(a Object) bool {
+	if v.depth+1 >= cycleCheckDepth {
+		if _, active := v.ones[a]; active {
+			return true
+		}
+		if v.ones == nil {
+			v.ones = map[Object]struct{}{}
+		}
+		v.ones[a] = struct{}{}
+	}
+	v.depth++
+	return false
+}
+
+func (v *visit) leave(a Object) {
+	v.depth--
+	if v.ones != nil {
+		delete(v.ones, a)
+	}
+}
+
+// equalsVisit is Equals(a, b) for values met while comparing containers.
+func equalsVisit(a, b Object, v *visit) bool {
+	switch a := a.(type) {
+	case *List:
+		return a.equalsVisit(b, v)
+	case *Map:
+		return a.equalsVisit(b, v)
+	}
+	return Equals(a, b)
+}
+
+func (ls *List) equalsVisit(other Object, v *visit) bool {
+	if other.Type() != LIST {
+		return false
+	}
+	otherList := other.(*List)
+	if len(ls.items) != len(otherList.items) {
+		return false
+	}
+	if v.enterPair(ls, otherList) {
+		// The same two lists are being compared further up: they are equal
+		// unless a difference is found elsewhere
+		return true
+	}
+	defer v.leavePair(ls, otherList)
+	for i, item := range ls.items {
+		if !equalsVisit(item, otherList.items[i], v) {
+			return false
+		}
+	}
+	return true
+}
+
+func (m *Map) equalsVisit(other Object, v *visit) bool {
+	if other.Type() != MAP {
+		return false
+	}
+	otherMap := other.(*Map)
+	if len(m.items) != len(otherMap.items) {
+		return false
+	}
+	if v.enterPair(m, otherMap) {
+		return true
+	}
+	defer v.leavePair(m, otherMap)
+	for k, value := range m.items {
+		otherValue, found := otherMap.items[k]
+		if !found {
+			return false
+		}
+		if !equalsVisit(value, otherValue, v) {
+			return false
+		}
+	}
+	return true
+}
+
+func (ls *List) compareVisit(other Object, v *visit) (int, error) {
+	otherList, ok := other.(*List)
+	if !ok {
+		return 0, errz.TypeErrorf("type error: unable to compare list and %s", other.Type())
+	}
+	if len(ls.items) > len(otherList.items) {
+		return 1, nil
+	} else if len(ls.items) < len(otherList.items) {
+		return -1, nil
+	}
+	if v.enterPair(ls, otherList) {
+		return 0, nil
+	}
+	defer v.leavePair(ls, otherList)
+	for i := 0; i < len(ls.items); i++ {
+		var comp int
+		var err error
+		if item, ok := ls.items[i].(*List); ok {
+			comp, err = item.compareVisit(otherList.items[i], v)
+		} else {
+			comparable, ok := ls.items[i].(Comparable)
+			if !ok {
+				return 0, errz.TypeErrorf("type error: %s object is not comparable", ls.items[i].Type())
+			}
+			comp, err = comparable.Compare(otherList.items[i])
+		}
+		if err != nil {
+			return 0, err
+		}
+		if comp != 0 {
+			return comp, nil
+		}
+	}
+	return 0, nil
+}
+
+// interfaceVisit is obj.Interface() for values met while converting containers.
+// A container that contains itself is represented by nil at the place where it
+// occurs in itself.
+func interfaceVisit(obj Object, v *visit) interface{} {
+	switch obj := obj.(type) {
+	case *List:
+		return obj.interfaceVisit(v)
+	case *Map:
+		return obj.interfaceVisit(v)
+	}
+	return obj.Interface()
+}
+
+func (ls *List) interfaceVisit(v *visit) interface{} {
+	if v.enter(ls) {
+		return nil
+	}
+	defer v.leave(ls)
+	items := make([]interface{}, 0, len(ls.items))
+	for _, item := range ls.items {
+		items = append(items, interfaceVisit(item, v))
+	}
+	return items
+}
+
+func (m *Map) interfaceVisit(v *visit) interface{} {
+	if v.enter(m) {
+		return nil
+	}
+	defer v.leave(m)
+	result := make(map[string]any, len(m.items))
+	for k, value := range m.items {
+		result[k] = interfaceVisit(value, v)
+	}
+	return result
+}
+
+// marshalVisit is json.Marshal(obj) for values met while marshalling
+// containers. A cyclic value cannot be represented in JSON and is an error.
+func marshalVisit(obj Object, v *visit) ([]byte, error) {
+	switch obj := obj.(type) {
+	case *List:
+		return obj.marshalVisit(v)
+	case *Map:
+		return obj.marshalVisit(v)
+	}
+	return json.Marshal(obj)
+}
+
+var errCyclicJSON = errz.EvalErrorf("value error: a value that contains itself cannot be marshalled to JSON")
+
+func (ls *List) marshalVisit(v *visit) ([]byte, error) {
+	if ls.items == nil {
+		return []byte("null"), nil
+	}
+	if v.enter(ls) {
+		return nil, errCyclicJSON
+	}
+	defer v.leave(ls)
+	var buf bytes.Buffer
+	buf.WriteByte('[')
+	for i, item := range ls.items {
+		if i > 0 {
+			buf.WriteByte(',')
+		}
+		data, err := marshalVisit(item, v)
+		if err != nil {
+			return nil, err
+		}
+		buf.Write(data)
+	}
+	buf.WriteByte(']')
+	return buf.Bytes(), nil
+}
+
+func (m *Map) marshalVisit(v *visit) ([]byte, error) {
+	if m.items == nil {
+		return []byte("null"), nil
+	}
+	if v.enter(m) {
+		return nil, errCyclicJSON
+	}
+	defer v.leave(m)
+	keys := make([]string, 0, len(m.items))
+	for k := range m.items {
+		keys = append(keys, k)
+	}
+	sort.Strings(keys)
+	var buf bytes.Buffer
+	buf.WriteByte('{')
+	for i, k := range keys {
+		if i > 0 {
+			buf.WriteByte(',')
+		}
+		key, err := json.Marshal(k)
+		if err != nil {
+			return nil, err
+		}
+		buf.Write(key)
+		buf.WriteByte(':')
+		data, err := marshalVisit(m.items[k], v)
+		if err != nil {
+			return nil, err
+		}
+		buf.Write(data)
+	}
+	buf.WriteByte('}')
+	return buf.Bytes(), nil
+}
